@@ -244,9 +244,44 @@ func stutterMain(args []string) {
 	_ = syscall.Kill(pid, syscall.SIGCONT)
 }
 
+// fanoutMain: one request handler hands its context tracer to k helper goroutines, each of which logs n lines through
+// it at the same time; the handler waits for them, logs its main line and submits. What the adapter received is written
+// to the result file.
+func fanoutMain(args []string) {
+	var k, n int
+	if len(args) != 3 {
+		fail("usage: logscenario --fanout goroutines lines result.json")
+	}
+	for i, p := range []*int{&k, &n} {
+		if _, err := fmt.Sscan(args[i], p); err != nil {
+			fail("fanout: %v", err)
+		}
+	}
+	rec := &recorder{}
+	go func() {
+		time.Sleep(45 * time.Second)
+		buf := make([]byte, 1<<20)
+		buf = buf[:runtime.Stack(buf, true)]
+		writeResult(args[2], &scn.Result{Writes: rec.snapshot(), Stage: "fanout", Hung: true, Stacks: string(buf)})
+		os.Exit(3)
+	}()
+	log.SetAdapter(rec)
+	if err := log.Start(); err != nil {
+		fail("log.Start: %v", err)
+	}
+	log.SetLogLevel(log.TraceLevel)
+	pkga.Fanout(k, n)
+	log.Shutdown()
+	writeResult(args[2], &scn.Result{Writes: rec.snapshot(), Stage: "done"})
+}
+
 func main() {
 	if len(os.Args) > 1 && os.Args[1] == "--stutter" {
 		stutterMain(os.Args[2:])
+		return
+	}
+	if len(os.Args) > 1 && os.Args[1] == "--fanout" {
+		fanoutMain(os.Args[2:])
 		return
 	}
 	if len(os.Args) != 3 {
